@@ -26,12 +26,14 @@ pub mod c29;
 pub mod c30;
 pub mod c32;
 pub mod c33;
+pub mod c34;
 pub mod c35;
 pub mod c36;
 pub mod c37;
 pub mod c38;
 pub mod c39;
 pub mod c40;
+
 
 
 pub fn run(id: &str, run: &mut Run) {
@@ -67,6 +69,7 @@ pub fn run(id: &str, run: &mut Run) {
         "C18" => c18::run(run),
         "C19" => c19::run(run),
         "C06" => c06::run(run),
+        "C34" => c34::run(run),
         _ => machinery_failure(&format!("no check for property {}", id)),
     }
 }
@@ -104,6 +107,7 @@ pub fn replay(id: &str, case: &Value, run: &mut Run) {
         "C18" => c18::replay(case, run),
         "C19" => c19::replay(case, run),
         "C06" => c06::replay(case, run),
+        "C34" => c34::replay(case, run),
         _ => machinery_failure(&format!("no replay for property {}", id)),
     }
 }
@@ -123,6 +127,7 @@ pub fn child(id: &str, args: &[String]) {
         "C29" => c29::child(args),
         "C32" => c32::child(args),
         "C06" => c06::child(args),
+        "C34" => c34::child(args),
         _ => machinery_failure(&format!("no child mode for property {}", id)),
     }
 }
